@@ -239,3 +239,83 @@ Proof.
       rewrite (all_of_children is_loopresult ALoopResult canon_lr l) by reflexivity;
       reflexivity.
 Qed.
+
+(* ------------------------------------------------------------------ FuncResult *)
+
+Definition funcresult_json (f : FuncResult) : json :=
+  jobj ([("name", ostr (fr_name f)); ("infinite", jbool (fr_infinite f));
+         ("start_time", jnum (fr_start f)); ("end_time", jnum (fr_end f));
+         ("variables", jstrs (fr_variables f)); ("inf_flows", ostr (fr_inf_flows f));
+         ("index", jnum (fr_index f)); ("func_code", ostr (fr_func_code f))]
+        ++ opt_entry "relation" (option_map rel_json (fr_relation f))
+        ++ opt_entry "choices" (choices_entry (fr_choices f))
+        ++ opt_entry "bound" (option_map bound_json (fr_bound f))).
+
+Lemma to_dict_funcresult n f : to_dict_n (S n) (AFuncResult f) = Ok (funcresult_json f).
+Proof.
+  destruct f as [na inf st en vs fl ix co [r|] [[[|v0 vl] [|ip|im]]|] [b|]]; reflexivity.
+Qed.
+
+Definition canon_fr (f : FuncResult) : FuncResult :=
+  mkFR (fr_name f) (fr_infinite f) (fr_start f) (fr_end f) (fr_variables f) (fr_inf_flows f) (fr_index f)
+       (fr_func_code f) (fr_relation f) (fr_choices f) (option_map canon_bd (fr_bound f)).
+
+Definition wf_fr (f : FuncResult) : Prop :=
+  (forall r, fr_relation f = Some r -> wf_rel (fr_variables f) r) /\
+  (forall c, fr_choices f = Some c -> wf_choices c) /\
+  (forall b, fr_bound f = Some b -> wf_bd b).
+
+Lemma wf_choices_not_infinite c : wf_choices c -> Choice.infinite c = false.
+Proof.
+  unfold wf_choices, Choice.infinite. destruct (Choice.valid c); [|reflexivity].
+  intros ->. reflexivity.
+Qed.
+
+Ltac crunch_fr := cbv -[as_strs decode mk_rel j_valid choices_init j_bound canon_bd].
+
+Lemma from_dict_funcresult n f : wf_fr f ->
+  from_dict_n not_none (S n) "FuncResult" (funcresult_json f) = Ok (AFuncResult (canon_fr f)).
+Proof.
+  destruct f as [na inf st en vs fl ix co r c b]. unfold wf_fr, canon_fr, funcresult_json.
+  cbn [fr_name fr_infinite fr_start fr_end fr_variables fr_inf_flows fr_index fr_func_code fr_relation
+       fr_choices fr_bound].
+  intros (Hr & Hc & Hb).
+  pose proof (as_strs_jstrs vs) as HV. unfold jstrs in *.
+  set (JV := map jstr vs) in *. clearbody JV.
+  (* relation *)
+  assert (HR : exists JR, option_map rel_json r = option_map (fun _ => jobj [("matrix", jarr JR)]) r /\
+                          forall x, r = Some x -> decode (jarr JR) = Ok (rmat x) /\ mk_rel vs (rmat x) = x).
+  { destruct r as [x|].
+    - eexists. split; [reflexivity|]. intros ? [= <-]. destruct (Hr x eq_refl) as (H1 & H2 & H3 & H4).
+      split; [apply (decode_encode _ H4) | apply mk_rel_wf; repeat split; assumption].
+    - exists []. split; [reflexivity | discriminate]. }
+  destruct HR as (JR & -> & HR).
+  (* choices *)
+  assert (HC : exists JC, choices_entry c = option_map (fun _ => jarr JC) c /\
+                          forall x, c = Some x -> j_valid (jarr JC) = Ok (Choice.valid x) /\
+                                                  choices_init (Choice.valid x) = x).
+  { destruct c as [x|].
+    - eexists. unfold choices_entry. rewrite (wf_choices_not_infinite x (Hc x eq_refl)).
+      split; [reflexivity|]. intros ? [= <-].
+      split; [apply j_valid_json | apply choices_init_any, Hc; reflexivity].
+    - exists []. split; [reflexivity | discriminate]. }
+  destruct HC as (JC & -> & HC).
+  (* bound *)
+  assert (HB : exists JB, option_map bound_json b = option_map (fun _ => jobj JB) b /\
+                          forall x, b = Some x -> j_bound (jobj JB) = Ok (canon_bd x)).
+  { destruct b as [x|].
+    - eexists. split; [reflexivity|]. intros ? [= <-]. apply j_bound_json, Hb. reflexivity.
+    - exists []. split; [reflexivity | discriminate]. }
+  destruct HB as (JB & -> & HB).
+  clear Hr Hc Hb.
+  destruct r as [r|]; [destruct (HR r eq_refl) as [HR1 HR2]|]; clear HR;
+  (destruct c as [c|]; [destruct (HC c eq_refl) as [HC1 HC2]|]; clear HC);
+  (destruct b as [b|]; [pose proof (HB b eq_refl) as HB1|]; clear HB);
+  cbn [option_map opt_entry app];
+  destruct na, fl, co;
+  crunch_fr; rewrite HV; crunch_fr;
+  repeat first [ rewrite HR1; crunch_fr; rewrite HR2; crunch_fr
+               | rewrite HC1; crunch_fr; rewrite HC2; crunch_fr
+               | rewrite HB1; crunch_fr ];
+  reflexivity.
+Qed.
